@@ -10,6 +10,7 @@
 #include <llvm/IR/DataLayout.h>
 #include <llvm/IR/DebugInfoMetadata.h>
 #include <llvm/IR/CFG.h>
+#include <llvm/ADT/PostOrderIterator.h>
 #include <llvm/IRReader/IRReader.h>
 #include <llvm/Support/SourceMgr.h>
 #include <llvm/Support/raw_ostream.h>
@@ -616,9 +617,12 @@ static void emitFunction(const Function& F, std::ostream& out)
     for (const BasicBlock& bb : F)
         bbNames[&bb] = "bb" + std::to_string(bbc++);
 
-    std::ostream& os = fc.body;
+    std::ostringstream ib;  // text of the current instruction; flushed with a #line directive per physical line
+    std::ostream& os = ib;
+    std::string curLine;
     auto line = [&](const Instruction& I)
     {
+        curLine.clear();
         if (!emitLines)
             return;
         if (const DebugLoc& dl = I.getDebugLoc())
@@ -629,15 +633,40 @@ static void emitFunction(const Function& F, std::ostream& out)
                 std::string file = scope->getFilename().str();
                 if (!file.empty() && file[0] != '/')
                     file = dir + "/" + file;
-                os << "#line " << dl.getLine() << " \"" << file << "\"\n";
+                curLine = "#line " + std::to_string(dl.getLine()) + " \"" + file + "\"\n";
             }
     };
-
-    for (const BasicBlock& bb : F)
+    struct Flush
     {
-        os << bbNames[&bb] << ": ;\n";
+        std::ostringstream& ib;
+        std::ostream& out;
+        std::string& cl;
+        ~Flush()
+        {
+            std::string t = ib.str();
+            ib.str("");
+            size_t p = 0;
+            while (p < t.size())
+            {
+                size_t q = t.find('\n', p);
+                if (q == std::string::npos)
+                    q = t.size();
+                out << cl << t.substr(p, q - p) << "\n";
+                p = q + 1;
+            }
+        }
+    };
+
+    // Blocks are emitted in reverse post-order: loop exits then follow their loops in the text, which is what
+    // CBMC's per-loop unwinding counters need in order to be reset when a nested loop is re-entered.
+    ReversePostOrderTraversal<const Function*> rpot(&F);
+    for (const BasicBlock* bbp : rpot)
+    {
+        const BasicBlock& bb = *bbp;
+        fc.body << bbNames[&bb] << ": ;\n";
         for (const Instruction& I : bb)
         {
+            Flush flusher{ib, fc.body, curLine};
             if (isa<PHINode>(I))
             {
                 fc.decls << "  " << useTy(I.getType()) << " " << valueName(&I, fc) << "; " << useTy(I.getType()) << " " << valueName(&I, fc)
@@ -731,9 +760,19 @@ static void emitFunction(const Function& F, std::ostream& out)
                     case Instruction::Or: e = widen(t, a, false) + " | " + widen(t, b, false); break;
                     case Instruction::Xor: e = widen(t, a, false) + " ^ " + widen(t, b, false); break;
                     // an oversized shift distance yields poison in LLVM (not UB): model it as an arbitrary value
-                    case Instruction::Shl: e = "(" + widen(t, b, false) + " < " + std::to_string(w) + " ? " + widen(t, a, false) + " << " + widen(t, b, false) + " : nondet_vp_undef_u64())"; break;
-                    case Instruction::LShr: e = "(" + widen(t, b, false) + " < " + std::to_string(w) + " ? " + widen(t, a, false) + " >> " + widen(t, b, false) + " : nondet_vp_undef_u64())"; break;
-                    case Instruction::AShr: e = "(" + widen(t, b, false) + " < " + std::to_string(w) + " ? " + widen(t, a, true) + " >> " + widen(t, b, false) + " : nondet_vp_undef_u64())"; break;
+                    case Instruction::Shl:
+                    case Instruction::LShr:
+                    case Instruction::AShr:
+                    {
+                        bool ar = bo->getOpcode() == Instruction::AShr;
+                        std::string sh = widen(t, a, ar) + (bo->getOpcode() == Instruction::Shl ? " << " : " >> ") + widen(t, b, false);
+                        auto* cb = dyn_cast<ConstantInt>(bo->getOperand(1));
+                        if (cb && cb->getValue().ult(w))
+                            e = sh;
+                        else
+                            e = "(" + widen(t, b, false) + " < " + std::to_string(w) + " ? " + sh + " : nondet_vp_undef_u64())";
+                        break;
+                    }
                     default:
                         fprintf(stderr, "ll2c: binop\n");
                         exit(2);
